@@ -22,8 +22,8 @@ CHECKS = {
    "Partial. Tie-window bounds, table coverage and table contents; every ordering test between a wrapping 64-bit sum and one of its addends in the Eisel-Lemire product is equivalent to the carry; every early zero/infinity exit of the stage is implied by the exponent bound of its path. That a definite answer is correctly rounded is NOT decided."),
  "C12": ("other", "5.12", TECH_E,
    "Partial. No result of a fallible library call is dropped unread (MIR def-use, all configurations); 5^135 and 5^i constants exact. Exactness of carry chains is NOT decided."),
- "C14": ("proof", "5.14", "static analysis: compiler-evaluated constants checked exhaustively against definitions (no execution of the parser)",
-   "Finite set of stored power constants, each compared with an independent big-integer recomputation of its definition, from rustc's own constant evaluation of the current tree, per configuration. Not covered: exactness of powf/powd in compact builds."),
+ "C14": ("proof", "5.14", "static analysis: compiler-evaluated constants checked exhaustively against definitions (no execution of the parser); abstract interpretation for the on-demand integer powers",
+   "Finite set of stored power constants, each compared with an independent big-integer recomputation of its definition, from rustc's own constant evaluation of the current tree, per configuration. On-demand integer powers (compact): every u64::pow call site proven overflow-free by abstract interpretation. Not covered: exactness of powf/powd in compact builds."),
  "C15": ("other", "5.15", TECH_E,
    "Decides the property for all inputs at once: no alloc-crate instance reachable on the monomorphic call graph from parse_float, no alloc item mentioned anywhere in the library, no indirect calls, no extern crate alloc, in every non-alloc configuration. Controls: alloc configurations and fixture."),
  "C16": ("other", "5.16", TECH_E,
@@ -36,13 +36,13 @@ CHECKS = {
 TECH_A = "static analysis: abstract interpretation (intervals + difference bounds, path-sensitive, modular big-integer layer) of the monomorphic MIR; audited-site table with machine-checked side conditions"
 CHECKS.update({
  "C04": ("other", "5.4", TECH_A,
-   "Every panic-capable terminator (overflow/bounds/div asserts, unwrap, debug_assert!, slice indexing) reachable from parse_float::<f32|f64> in the debug-assertions+overflow-checks MIR is PROVEN unreachable/non-failing for all valid inputs (any length below 2^62, any i32 exponent) or is AUDITED with a written reason and a re-evaluated side condition over extracted constants (capacity formula, 10^19 <= 2^64, exponent ranges). Non-alloc configurations."),
+   "Every panic-capable terminator (overflow/bounds/div asserts, unwrap, debug_assert!, slice indexing) reachable from parse_float::<f32|f64> in the debug-assertions+overflow-checks MIR is PROVEN unreachable/non-failing for all valid inputs (any length below 2^62, any i32 exponent) or is AUDITED with a written reason and a re-evaluated side condition over extracted constants (capacity formula, 10^19 <= 2^64, exponent ranges). All eight feature configurations (thorough); the heap back-end through a summary of alloc::vec::Vec, with the sites that need len <= BIGINT_LIMBS audited there."),
  "C07": ("other", "5.7", TECH_A + "; constant cut-off rules",
    "Partial. (1) decimal cut-offs imply zero/infinity; (2) in the exponent-bookkeeping functions every narrowing cast is value-preserving and every non-wrapping arithmetic operator cannot overflow, in debug and release MIR (this rule found the repaired `fraction_count as i32` defect). Subnormal rounding results are NOT decided."),
  "C08": ("other", "5.8", TECH_A,
-   "Every unsafe operation reachable from parse_float (get_unchecked, raw writes/copies/reads, pointer offsets, from_raw_parts, set_len) is within bounds / inside the initialised prefix for arbitrary bytes, any exponent, in release and debug MIR; vector invariant inductive over the modular big-integer layer. Non-alloc configurations."),
+   "Every unsafe operation reachable from parse_float (get_unchecked, raw writes/copies/reads, pointer offsets, from_raw_parts, set_len) is within bounds / inside the initialised prefix for arbitrary bytes, any exponent, in release and debug MIR; vector invariant inductive over the modular big-integer layer. Stack and heap back-ends (alloc::vec::Vec summarised: length, capacity, initialised prefix; set_len and raw copies checked against the capacity atom)."),
  "C13": ("other", "5.13", TECH_A + "; visibility facts",
-   "Invariant clauses only: INV (length <= capacity, [0,length) initialised) is inductive over every safe StackVec method and friend, from every INV state, in debug and release MIR; representation private to its module. Element-wise equality with a reference sequence and ordering are NOT decided; HeapVec not analysed."),
+   "Invariant clauses only: INV (length <= capacity, [0,length) initialised) is inductive over every safe StackVec method and friend, from every INV state, in debug and release MIR; representation private to its module; a failed try_push/try_extend/try_resize leaves every tracked cell of the vector unchanged and writes no memory. Heap back-end: the same with INV = length <= initialised prefix <= capacity over a summary of Vec. Element-wise equality with a reference sequence and ordering are NOT decided."),
 })
 CHECKS.update({
  "C19": ("other", "5.19", TECH_A + "; front-end copies extracted via rustc's pretty-printer and compiled against the library",
@@ -50,7 +50,7 @@ CHECKS.update({
  "C06": ("other", "5.6", TECH_A + "; exact midpoint-digit computation",
    "Partial. MAX_DIGITS >= longest exact midpoint expansion (computed exactly), capacity formula, and the truncation typestate of the 19-digit stage: at every exit of parse_number either many_digits is set or both iterators are exhausted. Rounding of the truncated value is NOT decided."),
  "C18": ("other", "5.18", TECH_A + "; must-pass-through rule on the monomorphic CFG",
-   "Partial. (1) every path through round / round_nearest_tie_even consults the rounding callback; (2) post-condition of round for every significand with its top bit set and every exponent whose subnormal shift is <= 64: 0 <= exp <= INFINITE_POWER, mant <= HIDDEN_BIT_MASK, exp = INFINITE_POWER => mant = 0 (fields pack without overlap, never NaN), all shifts and mask widths in range; (3) constants. The nearest-even decision itself is NOT decided."),
+   "Partial. (1) every path through round / round_nearest_tie_even consults the rounding callback; (2) post-condition of round for every significand with its top bit set and every exponent whose subnormal shift is <= 64: 0 <= exp <= INFINITE_POWER, mant <= HIDDEN_BIT_MASK, exp = INFINITE_POWER => mant = 0 (fields pack without overlap, never NaN), all shifts and mask widths in range; (3) constants; (4) bit-mask helpers for all widths 0..=64 by interval inclusion on the classes {0},{1},[2,62],{63},{64}. The nearest-even decision itself is NOT decided."),
  "C12": ("other", "5.12", TECH_E + "; " + TECH_A,
    "Partial. Failure discipline (no fallible result dropped unread), no wrapping_* limb arithmetic, every non-wrapping operator in bigint.rs/stackvec.rs proven overflow-free and every narrowing cast value-preserving or an audited half of the widening idiom (modular, under the vector invariant), 5^135 / 5^i constants exact. Exactness of carry chains is NOT decided."),
 })
